@@ -121,6 +121,7 @@ def one_model(ctx, prog, script, rng):
         # sometimes the convergence-check list names a variable that no equation assigns (an exogenous variable or parameter
         # watched for stability): being checked does not make it something a solve may change - not even through `offset`
         extra_check = [rng.choice(others)] if others and rng.random() < 0.3 else []
+        extra_mode = rng.choice(['rebind', 'append'])
         if extra_check:
             ctx.count('models_checking_a_non_endogenous_variable')
 
@@ -129,7 +130,10 @@ def one_model(ctx, prog, script, rng):
             for nm in names:
                 m.__dict__['_' + nm][:] = data[nm]
             if extra_check:
-                m.check = list(m.check) + extra_check
+                if extra_mode == 'rebind':
+                    m.check = list(m.check) + extra_check
+                else:
+                    m.check.append(extra_check[0])        # in place: the check list is the instance's own, and only the check list
             if seed_from is not None:
                 e_, x_, how = seed_from
                 if how == 'attr':
